@@ -4,6 +4,7 @@ from vlib import *  # noqa
 from fam_funcs import run_funcs  # noqa
 from fam_client import run_client  # noqa
 from fam_wire import run_wire  # noqa
+from fam_codec import run_codec  # noqa
 
 BAG = {
     "pubsub": '<<"join","sub","sub","unsub","pub","pub","pub","leave">>',
@@ -131,6 +132,7 @@ PROPS = {
     "C04": dict(family="hostile", classes=["sess", "pubsub", "rpcreply", "rpcroute", "rpcintr", "metaapi", "meta"]),
     "C19": dict(family="funcs"),
     "C15": dict(family="wire"),
+    "C14": dict(family="codec"),
     "C16": dict(family="client",
                 conc=dict(inv=["OwnReply", "AtMostOnce", "NoLeftover"], props=["CloseReturns", "ApisReturn", "RunMovesOn"],
                           quick=dict(napi=2, nreplies=2), thorough=dict(napi=3, nreplies=2),
